@@ -6,7 +6,7 @@
    algorithm, .changes file lines).  A changed or dropped tag makes the corresponding lemma fail to compile. *)
 From Coq Require Import List Ascii String Bool Arith NArith ZArith Lia.
 Require Import SchemaDefs Schema_gen.
-Require GS R2 R2u L10 L12 L13 ACC C9G CX CX2 C10E.
+Require GS R2 R2u L10 L12 L13 ACC C9G CX CX2 CX3 C10E.
 Import ListNotations.
 
 Lemma C10_dsc_schema_ok : schema_ok dsc_schema dsc_table = true.
@@ -71,6 +71,26 @@ Theorem C10_dsc_binaries_decoder : exists f, find_field dsc_schema (s "Binaries"
   forall t, CX.decode_kind f (kind f) t = Some (CX.XList (map CX.XS (L10.decode_list ","%char (CX.in_set (strip f)) t))).
 Proof. exact CX2.dsc_binaries_decoder. Qed.
 Print Assumptions C10_schema_row_decoder.
+
+(* checksum and file lists: for ANY element kind a slice field with a one-byte delimiter (not the blank) is decoded
+   element-wise over L10.decode_list; a Files / Checksums-* value in the real layout - stripped bytes, one
+   "hash size name" line per file, stripped bytes - decodes to the (algorithm, hash, size, name) tuples in order,
+   tagged with the algorithm of the field's own struct type (instance: DSC.ChecksumsSha256 of the regenerated schema) *)
+Theorem C10_slice_decoder_any_kind : forall (f : CX.fd) (k : fkind) (d : ascii) t,
+  has_delim f = true -> delim f = [d] -> d <> " "%char ->
+  CX.decode_kind f (KSlice k) t = option_map CX.XList (CX.mapM_opt (CX.decode_kind f k) (L10.decode_list d (CX.in_set (strip f)) t)).
+Proof. exact CX3.CX_slice_generic. Qed.
+Theorem C10_checksum_list : forall f name alg rows w1 w2,
+  kind f = KSlice (KStruct name) -> CX.struct_alg name = Some alg -> has_delim f = true -> delim f = [GS.nl] ->
+  (forall c, CX.in_set (strip f) c = true -> GS.is_space c = true) ->
+  L10.allP (CX.in_set (strip f)) w1 -> L10.allP (CX.in_set (strip f)) w2 -> rows <> [] -> Forall CX3.row_ok rows ->
+  CX.decode_kind f (kind f) (w1 ++ GS.join [GS.nl] (map CX3.row_text rows) ++ w2) = Some (CX.XList (map (CX3.row_val alg) rows)).
+Proof. exact CX3.C10_hash_list. Qed.
+Theorem C10_dsc_checksums_sha256 : exists f, find_field dsc_schema (s "ChecksumsSha256") = Some f /\ key f = s "Checksums-Sha256" /\
+  forall rows w1 w2, L10.allP (CX.in_set (strip f)) w1 -> L10.allP (CX.in_set (strip f)) w2 -> rows <> [] -> Forall CX3.row_ok rows ->
+    CX.decode_kind f (kind f) (w1 ++ GS.join [GS.nl] (map CX3.row_text rows) ++ w2) = Some (CX.XList (map (CX3.row_val (CX.lit "sha256")) rows)).
+Proof. exact CX3.dsc_sha256_rows. Qed.
+Print Assumptions C10_checksum_list.
 
 (* composition with the reader: a comma-separated list FOLDED over continuation lines ("Binary: a,\n b,\n c").
    C07_field_value says the reader's value for such a field is read_conts (first line) (continuation lines); the
